@@ -38,7 +38,8 @@ Dir == [k |-> "dir", t |-> <<>>]
 File == [k |-> "file", t |-> <<>>]
 Link(t) == [k |-> "link", t |-> t]
 
-FS0 == (<<>> :> Dir) @@ (J :> Dir) @@ (<<"O">> :> Dir)
+(* "Jx" is a sibling whose name starts with the destination's name (a prefix test without separator confuses them) *)
+FS0 == (<<>> :> Dir) @@ (J :> Dir) @@ (<<"O">> :> Dir) @@ (<<"Jx">> :> Dir)
 
 ---------------------------------------------------------------------------
 (* resolution as the operating system does it (realpath, non-strict) *)
